@@ -444,13 +444,14 @@ Section RT.
   Proof.
     unfold find_var. induction vars as [|w vars IH]; intros Hd Hin Hw Hb; [contradiction|].
     cbn [map distinct_keys] in Hd. apply andb_true_iff in Hd as [Hw1 Hd]. cbn [find].
+    rewrite (Hw w (or_introl eq_refl)).
     destruct Hin as [->|Hin].
     - rewrite str_eqb_refl, Hb. reflexivity.
     - destruct (str_eqb_spec (v_local_name w) (v_local_name var)) as [E|_].
       + apply negb_true_iff in Hw1.
         pose proof (existsb_str_false _ _ Hw1 (v_local_name var) (in_map v_local_name _ _ Hin)) as F.
         rewrite E, str_eqb_refl in F. discriminate.
-      + rewrite (Hw w (or_introl eq_refl)). apply IH; try assumption. intros w' Hw'. apply Hw. right. exact Hw'.
+      + cbn [andb]. apply IH; try assumption. intros w' Hw'. apply Hw. right. exact Hw'.
   Qed.
 
   Lemma assoc_vars {A} (X : xvar -> A) vars var :
@@ -511,8 +512,14 @@ Section RT.
     drun' F (DBindText meta var (jleaf var p)) = Ok (VP p).
   Proof.
     intros Hv Ht Hl HF. destruct (d1_var_inv var Hv). destruct (kind_facts var dv_kind0) as [_ [Hke Hkw]].
-    destruct (leaf_facts var p Hl) as [Hs [Hd _]].
-    destruct F as [|F]; [lia|]. cbn [drun]. rewrite Hke, dv_any0, Hkw. cbn [orb]. rewrite Hs. cbn [gbind].
+    destruct (leaf_facts var p Hl) as [Hs [Hd [Hnl _]]].
+    destruct F as [|F]; [lia|]. cbn [drun]. rewrite Hke, dv_any0, Hkw. cbn [orb].
+    assert (Hn : (match jleaf var p with
+                  | JList _ l => existsb (fun x => match x with JNull => true | _ => false end) l
+                  | _ => false
+                  end) = false)
+      by (destruct (jleaf var p) eqn:E; try reflexivity; exfalso; eapply Hnl; reflexivity).
+    rewrite Hn, Hs. cbn [gbind].
     unfold parse_var. rewrite Ht, Hd. reflexivity.
   Qed.
 
@@ -537,7 +544,15 @@ Section RT.
       apply andb_true_iff in Hl as [Hl H3]. apply andb_true_iff in Hl as [_ H2]. eauto. }
     set (txt := fun x => match x with VP p => leaf_text var p | _ => [] end).
     destruct F as [|F]; [lia|]. cbn [drun]. rewrite Hke, dv_any0, Hkw. cbn [orb].
-    rewrite jenc_list, j_serialize_list, (j_parts_ok txt l (Some var)).
+    rewrite jenc_list.
+    assert (Hnn : existsb (fun x => match x with JNull => true | _ => false end) (map (jenc (Some var)) l) = false).
+    { clear - Hp. induction l as [|x l IHl]; [reflexivity|]. cbn [map existsb].
+      destruct (Hp x (or_introl eq_refl)) as [p [-> [H1 _]]]. cbn [jenc].
+      destruct (leaf_facts var p H1) as [Hs _].
+      destruct (jleaf var p) eqn:E; try (cbn [orb]; apply IHl; intros y Hy; apply Hp; right; exact Hy).
+      cbn in Hs. discriminate Hs. }
+    rewrite Hnn.
+    rewrite j_serialize_list, (j_parts_ok txt l (Some var)).
     2:{ intros x Hin. destruct (Hp x Hin) as [p [-> [H1 _]]]. cbn [jenc txt]. apply (leaf_facts var p H1). }
     cbn [gbind]. unfold parse_var. rewrite Ht.
     rewrite (split_join py_isspace py_space_32).
